@@ -462,21 +462,36 @@ func init() {
 		redo := w.Fn("recovery/log_recovery", "LogRecovery", "Redo")
 		em := tablePageEmitters(w)
 		isRecLSN := func(v ssa.Value) bool { return fieldLoadOf(v, lsnFld) }
-		lsnGuard := CutWhen(func(v ssa.Value) bool {
-			b, ok := v.(*ssa.BinOp)
+		// guard edge: the edge of a comparison between the page LSN and the record LSN on which
+		// "page LSN < record LSN" holds, whatever the spelling (<, >, <=, >= and operand order)
+		lsnGuard := func(b *ssa.BasicBlock, succ int) bool {
+			i := blockIf(b)
+			if i == nil {
+				return false
+			}
+			v, neg := condBase(i.Cond)
+			bo, ok := v.(*ssa.BinOp)
 			if !ok {
 				return false
 			}
 			pageSide := func(x ssa.Value) bool { return DependsOn(x, IsCallTo(a.PageGetLSN)) }
 			recSide := func(x ssa.Value) bool { return DependsOn(x, isRecLSN) }
-			switch b.Op {
-			case token.LSS: // page < rec
-				return pageSide(b.X) && recSide(b.Y)
-			case token.GTR: // rec > page
-				return recSide(b.X) && pageSide(b.Y)
+			var holdsWhenTrue bool // does "page < rec" hold when the BinOp is true?
+			switch {
+			case bo.Op == token.LSS && pageSide(bo.X) && recSide(bo.Y): // page < rec
+				holdsWhenTrue = true
+			case bo.Op == token.GTR && recSide(bo.X) && pageSide(bo.Y): // rec > page
+				holdsWhenTrue = true
+			case bo.Op == token.GEQ && pageSide(bo.X) && recSide(bo.Y): // page >= rec
+				holdsWhenTrue = false
+			case bo.Op == token.LEQ && recSide(bo.X) && pageSide(bo.Y): // rec <= page
+				holdsWhenTrue = false
+			default:
+				return false
 			}
-			return false
-		}, true)
+			binTrueOnEdge := (succ == 0) != neg
+			return binTrueOnEdge == holdsWhenTrue
+		}
 		var vals []int64
 		for v := range em {
 			vals = append(vals, v)
